@@ -448,6 +448,9 @@ impl<'a, 'tcx> BodyCx<'a, 'tcx> {
         if !is_trait_item {
             return None;
         }
+        if args.len() != tcx.generics_of(did).count() {
+            return None;
+        }
         let env = ty::TypingEnv::post_analysis(tcx, self.owner.to_def_id());
         let args = tcx.erase_and_anonymize_regions(args);
         match ty::Instance::try_resolve(tcx, env, did, args) {
@@ -496,6 +499,18 @@ impl<'a, 'tcx> BodyCx<'a, 'tcx> {
             Res::SelfCtor(_) => vec![("dk", s("self_ctor"))],
             other => vec![("dk", s("other")), ("path", s(format!("{:?}", other)))],
         }
+    }
+
+    // resolved path of a callee expression (path to a fn / assoc fn, incl. lang items), impl-resolved where possible
+    fn callee_path(&mut self, f: &hir::Expr<'tcx>) -> Option<String> {
+        if let hir::ExprKind::Path(ref qp) = f.kind {
+            let res = self.tr.qpath_res(qp, f.hir_id);
+            if let Res::Def(DefKind::Fn | DefKind::AssocFn, did) = res {
+                let args = self.tr.node_args(f.hir_id);
+                return Some(self.resolve(did, args).unwrap_or_else(|| self.ex.path(did)));
+            }
+        }
+        None
     }
 
     fn variant_of(&mut self, res: Res, ty: Ty<'tcx>) -> Option<String> {
@@ -813,7 +828,21 @@ impl<'a, 'tcx> BodyCx<'a, 'tcx> {
                                         };
                                         let iter = self.expr(&args[0]);
                                         let body = self.expr(some_arm.body);
-                                        return self.node("for", e, vec![("pat", pat), ("iter", iter), ("body", body)]);
+                                        let mut v = vec![("pat", pat), ("iter", iter), ("body", body)];
+                                        // resolved Iterator::next / IntoIterator::into_iter of the loop (for the call graph)
+                                        if let hir::ExprKind::Match(nscrut, _, _) = inner.kind {
+                                            if let hir::ExprKind::Call(nf, _) = nscrut.kind {
+                                                if let Some(p) = self.callee_path(nf) {
+                                                    v.push(("next_fn", s(p)));
+                                                }
+                                            }
+                                        }
+                                        if let hir::ExprKind::Call(itf, _) = scrut.kind {
+                                            if let Some(p) = self.callee_path(itf) {
+                                                v.push(("into_iter_fn", s(p)));
+                                            }
+                                        }
+                                        return self.node("for", e, v);
                                     }
                                 }
                             }
